@@ -206,6 +206,22 @@ func newRig(cfg *sio.ServerConfig) *rig {
 	return r
 }
 
+// shutdown ends a scenario: clients first, then (after the closing handshakes had time to finish) the server.
+// Closing both ends of a WebSocket at the same instant makes each side wait for the other's close frame while
+// further Close calls queue on a mutex, which a synctest bubble cannot tell from work in progress.
+func (r *rig) shutdown(ms ...*sio.Manager) {
+	seen := map[*sio.Manager]bool{}
+	for _, m := range ms {
+		if m != nil && !seen[m] {
+			seen[m] = true
+			m.Close()
+		}
+	}
+	time.Sleep(10 * time.Second)
+	r.close()
+	time.Sleep(10 * time.Minute)
+}
+
 func (r *rig) close() {
 	r.server.Close()
 	r.http.Close()
